@@ -47,6 +47,7 @@ pub struct LevelEval {
     pub rules_reject: Option<String>,
     pub rules_judged: bool,
     pub insp_names: Vec<String>,
+    pub out_of_scope: bool,
 }
 
 fn str_list(v: &Value) -> Vec<String> {
@@ -156,6 +157,13 @@ pub fn eval_level(layout: &DocTruth, dir: &DirTruth, now: (i64, u32), id: &str, 
                 });
             }
         }
+        // step names with glob metacharacters (or none at all) are outside what C02/C15 quantify
+        // over: the file-name pattern built from them matches other steps' files too
+        if name.is_empty() || name.contains(|c: char| "*?[]{}/\\".contains(c) || c.is_control()) {
+            ev.steps.push(StepEval { name, threshold, cands });
+            ev.out_of_scope = true;
+            continue;
+        }
         let need = threshold.max(1) as usize;
         let all: BTreeSet<&String> = cands.iter().map(|c| &c.key).collect();
         let noexp: BTreeSet<&String> =
@@ -242,7 +250,7 @@ pub fn eval_level(layout: &DocTruth, dir: &DirTruth, now: (i64, u32), id: &str, 
         }
         links.insert(s.name.clone(), la);
     }
-    if unambiguous && ev.fails.is_empty() {
+    if unambiguous && ev.fails.is_empty() && !ev.out_of_scope {
         let mut judged = true;
         let mut reject = None;
         for st in signed["steps"].as_array().unwrap_or(&empty) {
@@ -335,7 +343,9 @@ pub fn judge_supply(t: &SupplyTrace, o: &SupplyOutcome) -> SupplyJudgement {
     if o.no_layout.is_some() || o.verdicts.is_empty() {
         return SupplyJudgement { findings: f, root_eval: None, shape: "no-layout".into() };
     }
-    let now = t.clock[0];
+    // with a clock that moves during the call, the weakest reading of "the moment of verification"
+    // is the earliest instant any read returns
+    let now = t.clock.iter().copied().min().unwrap_or((0, 0));
     let ev = eval_level(&o.truth.root_layout, &o.truth.dir, now, "root", 0);
     let any_ok = o.verdicts.iter().any(|v| v.ok);
     // C01: caller key set
@@ -495,6 +505,25 @@ fn judge_c08(t: &SupplyTrace, o: &SupplyOutcome, ev: &LevelEval, root_sig_bad: b
                     ExitSpec::Signal(_) => ran,
                     ExitSpec::NotFound => a.id.starts_with("root#"),
                 };
+                // (iii) the inspection's products are subject to its rules: a file the actor created
+                // and a DISALLOW rule naming exactly that file
+                if ran && a.exit == ExitSpec::Code(0) && a.id.starts_with("root#") {
+                    let insp = t.root.layout.inspect.iter().find(|i| i.actor.id == a.id);
+                    if let Some(insp) = insp {
+                        for op in &a.ops {
+                            if let FsOp::Write { path, .. } = op {
+                                if insp.exp_prod.iter().any(|r| r.len() == 2 && r[0] == "DISALLOW" && &r[1] == path) {
+                                    f.push(finding(
+                                        "C08",
+                                        "inspection-rule-violation-accepted",
+                                        format!("repetition {rep}: inspection {} created '{}' which its expected_products DISALLOW, and verification returned Ok", a.id, path),
+                                    ));
+                                    return;
+                                }
+                            }
+                        }
+                    }
+                }
                 if failing {
                     f.push(finding(
                         "C08",
